@@ -741,7 +741,7 @@ impl<'a> UserModel<'a> {
             } else {
                 return Ok(());
             };
-        let [row_start, column_start, _row_end, _column_end] = range;
+        let _ = range;
 
         let mut new_left_column = left_column;
         if target_column >= selected_column {
@@ -777,7 +777,9 @@ impl<'a> UserModel<'a> {
 
         if let Ok(worksheet) = self.model.workbook.worksheet_mut(sheet) {
             if let Some(view) = worksheet.views.get_mut(&self.model.view_id) {
-                view.range = [row_start, column_start, target_row, target_column];
+                // the area goes from the selected cell to the target, so that the
+                // selected cell is always one of its corners
+                view.range = [selected_row, selected_column, target_row, target_column];
                 if new_top_row != top_row {
                     view.top_row = new_top_row;
                 }
